@@ -6,14 +6,18 @@
   C21.PADFIRST  in the picture-analysis thread, the regeneration of the picture borders (pad_input_pictures) dominates every
                 other call that receives the copied picture or its picture control set, so bytes the stride copy brought into
                 the padding area are overwritten before anything reads them
+  C21.LAYOUT    the caller's picture layout is honoured plane by plane: every plane pointer and stride of EbSvtIOFormat is read
+                by the library, and no statement on the copy-in path combines the pointer of one plane with the stride of
+                another (plane-tag dataflow shared with C26): a Cr plane walked with the Cb stride mixes visible samples with
+                the caller's row padding as soon as the two strides differ
 """
 from engine.facts import pstr, strip, callee_name, subexprs, last_field, root_of, AnalysisBroken
 
 PID = 'C21'
 
 META = {
-    'technique': 'interprocedural escape (taint) analysis of caller-owned pointers over the copy-in call tree + dominance of the border regeneration over every consumer call in the analysis thread',
-    'text': 'Decides that svt_av1_enc_send_picture retains nothing of the caller\'s memory (so the caller may overwrite or free it as soon as the call returns - for every picture and configuration, because it is a property of every store on the copy-in path) and that padding bytes copied along with the visible samples are regenerated before any analysis can read them. It does not decide that the row copy length stays inside the row for every stride, nor the 10-bit unpack arithmetic.',
+    'technique': 'interprocedural escape (taint) analysis of caller-owned pointers over the copy-in call tree + dominance of the border regeneration over every consumer call in the analysis thread + colour-plane tag dataflow over the functions that read the EbSvtIOFormat of the caller',
+    'text': 'Decides that svt_av1_enc_send_picture retains nothing of the caller\'s memory (so the caller may overwrite or free it as soon as the call returns - for every picture and configuration, because it is a property of every store on the copy-in path) and that padding bytes copied along with the visible samples are regenerated before any analysis can read them. Also decided: every plane of the submitted layout is read with its own stride. It does not decide that the row copy length stays inside the row for every stride, nor the 10-bit unpack arithmetic.',
     'note': 'taint sources: pointer parameters of svt_av1_enc_send_picture and everything loaded through them; sinks: stores whose destination is not a local variable',
     'ref': 'DESIGN.md section 5 C21',
 }
@@ -168,3 +172,44 @@ def run(P, rep, tier):
                 rep.ob('C21.PADFIRST', 'overlay/consumer:%s#%d' % (name or 'indirect', m), ok, ov.loc(ev),
                        '%s(%s) is %sdominated by the border regeneration of %s' % (name, ', '.join(args)[:60], '' if ok else 'NOT ', opic))
     rep.floor('C21.PADFIRST', 8)
+    run_layout(P, rep)
+
+
+def run_layout(P, rep):
+    from rules.C26 import PlaneFlow
+    from engine.classes import Classes
+    C = Classes(P)
+    R = 'EbSvtIOFormat.'
+    voc = {R + 'luma': 'Y', R + 'cb': 'CB', R + 'cr': 'CR', R + 'luma_ext': 'Y', R + 'cb_ext': 'CB', R + 'cr_ext': 'CR',
+           R + 'y_stride': 'Y', R + 'cb_stride': 'CB', R + 'cr_stride': 'CR'}
+    have = {R + fd['n'] for fd in P.record('EbSvtIOFormat')['fields']}
+    if not set(voc) <= have:
+        raise AnalysisBroken('EbSvtIOFormat no longer has the members %s' % sorted(set(voc) - have))
+    readers = {}
+    for f in P.fns:
+        if f.lib != 'Encoder' or f.nocfg or f in C.dead:
+            continue
+        for ev in f.events():
+            e = ev.get('e')
+            if e is None:
+                continue
+            # reads only: the member appears outside the target of a plain assignment
+            srcs = [e[3]] if (ev['k'] == 'st' and e[0] == 'a' and e[1] == '=') else [e]
+            for src in srcs:
+                for x in subexprs(src):
+                    if x[0] == 'm' and x[1] in voc:
+                        readers.setdefault(x[1], set()).add(f)
+    for m in sorted(voc):
+        fs = readers.get(m, set())
+        rep.ob('C21.LAYOUT', 'read:' + m.split('.')[1], bool(fs), sorted(fs, key=lambda g: g.name)[0].loc() if fs else 'Source/API/EbSvtAv1.h',
+               ('read by %s' % sorted(g.name for g in fs)[:3]) if fs else
+               ('the caller-provided %s is never read: the plane it describes is walked with some other stride / pointer' % m.split('.')[1]))
+    fns = set().union(*readers.values()) if readers else set()
+    for f in sorted(fns, key=lambda g: (g.file, g.name)):
+        problems, nst, seen = PlaneFlow(f, voc).run()
+        if problems:
+            for ev, txt in problems[:4]:
+                rep.ob('C21.LAYOUT', '%s/mix@%s' % (f.name, txt[:50]), False, f.loc(ev), txt + ': a plane of the submitted picture is read with the layout of another plane')
+        else:
+            rep.ob('C21.LAYOUT', '%s/planes' % f.name, True, f.loc(), '%d statements use the caller layout, each within one plane' % nst)
+    rep.floor('C21.LAYOUT', 10)
